@@ -10,6 +10,7 @@ import fs from "node:fs";
 import path from "node:path";
 import os from "node:os";
 import { pathToFileURL } from "node:url";
+import { genSplitProject } from "./split.mjs";
 
 // ---------- TsCore -> TypeScript text ----------
 const IDENT = /^[A-Za-z_$][A-Za-z0-9_$]*$/;
@@ -399,6 +400,16 @@ let counter = 0;
 export function gen(rng, params, mode) {
   if (mode === "prog-total") return genTotal(rng, params);
   if (mode === "prog-rewrite") return genRewrite(rng, params);
+  if (mode === "prog-split") {
+    // (split id p files1 values proj filesN expect break-kind)
+    let p = genProg(rng);
+    for (let i = 0; i < 3 && p[1].length < 2; i++) p = genProg(rng);   // prefer programs with declarations to move
+    // make every declaration reachable from an export (otherwise nothing has to be imported)
+    if (p[1].length) p = [p[0], p[1], [...p[2], ["EX", [A("obj"), p[1].map((d, i) => ["d" + i, A(rng.chance(1, 3) ? "true" : "false"), [A("ref"), d[1], ...d[2].map(() => { const ng = p[1].filter((x) => x[2].length === 0); return ng.length && rng.chance(1, 2) ? [A("ref"), rng.pick(ng)[1]] : A(rng.pick(["string", "number"])); })]]), A("none")]]]];
+    const vals = genValues(rng, p, Number(params[0] || 8));
+    const sp = genSplitProject(rng, p);
+    return [A("split"), A(String(counter++)), p, [["entry.ts", tsOfProg(p)]], vals.map(encVal), sp.proj, sp.files, sp.expect, sp.breakKind];
+  }
   if (mode === "prog-describe") {
     const p = genProg(rng);
     p[2] = [p[2][0]]; // one export
@@ -492,6 +503,16 @@ export function makeRunner(rt_, mode, build) {
       for (const v of vals) { let x, y; try { x = a.validate(v); y = b.validate(v); } catch (e) { fail.push(A("c03.throw")); break; } if (x !== y) { fail.push(A("c15.validate")); break; } }
       try { if (a.hash256() !== b.hash256()) fail.push(A("c15.hash256")); } catch (e) { fail.push(A("c13.hash-throws")); }
       return [[A("described"), text], fail.length ? [A("oracle"), A("fail"), ...fail] : [A("oracle"), A("ok")]];
+    }
+    if (head(req) === "split") {
+      // compiled = (pair single multi); export names are those of p
+      const a = await evalOne(req[2][2], req[4], compiled[1]);
+      const b = await evalOne(req[2][2], req[4], compiled[2]);
+      const fail = [...a.fail, ...b.fail];
+      if (isAtom(req[7], "diags")) { if (head(b.reply) !== "diags") fail.push(A("c09.unresolved-bound")); }
+      else if (head(a.reply) !== head(b.reply)) fail.push(A("c09.outcome"));
+      else if (head(a.reply) === "bits" && show(a.reply) !== show(b.reply)) fail.push(A("c09.validate"));
+      return [[A("pair"), a.reply, b.reply], fail.length ? [A("oracle"), A("fail"), ...new Map(fail.map((x) => [x.s, x])).values()] : [A("oracle"), A("ok")]];
     }
     if (head(req) === "rewrite") {
       // compiled = (pair r1 r2)
